@@ -76,6 +76,15 @@ func (e *CEnv) quantBody(guard Tm, sides []Tm, body Tm, universal bool) Tm {
 	return and(guard, body)
 }
 
+// trigger registers a ground index term: quantified hypotheses are instantiated at it
+// (and its neighbours) through the pattern (Tr k).
+func (e *CEnv) trigger(t Tm) {
+	if e.sides != nil {
+		return // inside a quantifier: the term may mention bound variables
+	}
+	e.st.trigger(t)
+}
+
 // hyp / goal evaluate a clause in assumed / to-be-proved position.
 func (e *CEnv) hyp(c Clause) Tm  { return e.withPol(1).evalBool(c) }
 func (e *CEnv) goal(c Clause) Tm { return e.withPol(-1).evalBool(c) }
@@ -266,6 +275,7 @@ func (e *CEnv) eval(ex ast.Expr) *Val {
 		a := e.eval(n.X)
 		i := e.typed(e.eval(n.Index), types.Typ[types.Int])
 		iv := e.x.toIdx(e.st, i)
+		e.trigger(iv)
 		switch a.K {
 		case KSlice:
 			et := a.T.Underlying().(*types.Slice).Elem()
@@ -813,8 +823,47 @@ func (e *CEnv) call(n *ast.CallExpr) *Val {
 		if !ok {
 			e.errf("%s: first argument must be an identifier", fname)
 		}
-		lo := e.x.toIdx(st, e.typed(e.eval(n.Args[1]), types.Typ[types.Int]))
-		hi := e.x.toIdx(st, e.typed(e.eval(n.Args[2]), types.Typ[types.Int]))
+		lo := e.x.toIdx(st, e.typed(e.withPol(0).eval(n.Args[1]), types.Typ[types.Int]))
+		hi := e.x.toIdx(st, e.typed(e.withPol(0).eval(n.Args[2]), types.Typ[types.Int]))
+		universal := fname == "forall"
+		top := e.sides == nil && !e.inOld || (e.sides == nil)
+		e.trigger(lo)
+		e.trigger(hi)
+		// Skolemisation by the generator (keeps goals quantifier-free and lets the skolem
+		// constant trigger the quantified hypotheses): a universal to be proved or an
+		// existential that is assumed becomes a fresh constant.
+		if top && ((universal && e.pol < 0) || (!universal && e.pol > 0)) {
+			sk := st.declare("sk."+id.Name, m.idx())
+			sub := e.sub()
+			sub.bound[id.Name] = &Val{T: types.Typ[types.Int], K: KInt, S: sk}
+			e.trigger(sk)
+			body := sub.eval(n.Args[3])
+			rng := and(m.le(lo, sk), m.lt(sk, hi))
+			if universal {
+				return boolVal(implies(rng, body.S))
+			}
+			return boolVal(and(rng, body.S))
+		}
+		// An existential to be proved: try every ground index term seen so far as a witness.
+		if top && !universal && e.pol < 0 {
+			var alts []Tm
+			cands := append([]Tm{lo, m.sub(hi, m.idxLit(1))}, st.trTerms(m.idx())...)
+			seen := map[string]bool{}
+			for _, cnd := range cands {
+				if seen[cnd.S] {
+					continue
+				}
+				seen[cnd.S] = true
+				sub := e.sub()
+				sub.bound[id.Name] = &Val{T: types.Typ[types.Int], K: KInt, S: cnd}
+				body := sub.eval(n.Args[3])
+				alts = append(alts, and(m.le(lo, cnd), m.lt(cnd, hi), body.S))
+				if len(alts) >= 24 {
+					break
+				}
+			}
+			return boolVal(or(alts...))
+		}
 		sub := e.sub()
 		bn := freshName(id.Name)
 		bv := &Val{T: types.Typ[types.Int], K: KInt, S: Tm{bn, m.idx()}}
@@ -823,8 +872,8 @@ func (e *CEnv) call(n *ast.CallExpr) *Val {
 		sub.sides = &sides
 		body := sub.eval(n.Args[3])
 		rng := and(m.le(lo, bv.S), m.lt(bv.S, hi))
-		if fname == "forall" {
-			return boolVal(tm(SBool, "(forall ((%s %s)) %s)", bn, m.idx(), e.quantBody(rng, sides, body.S, true).S))
+		if universal {
+			return boolVal(tm(SBool, "(forall ((%s %s)) (! %s :pattern ((%s %s))))", bn, m.idx(), e.quantBody(rng, sides, body.S, true).S, e.x.trUF(m.idx()), bn))
 		}
 		return boolVal(tm(SBool, "(exists ((%s %s)) %s)", bn, m.idx(), e.quantBody(rng, sides, body.S, false).S))
 	case "forallint":
@@ -832,6 +881,13 @@ func (e *CEnv) call(n *ast.CallExpr) *Val {
 			e.errf("forallint(i, P) expects 2 arguments")
 		}
 		id := n.Args[0].(*ast.Ident)
+		if e.sides == nil && e.pol < 0 {
+			sk := st.declare("sk."+id.Name, m.idx())
+			sub := e.sub()
+			sub.bound[id.Name] = &Val{T: types.Typ[types.Int], K: KInt, S: sk}
+			e.trigger(sk)
+			return boolVal(sub.eval(n.Args[1]).S)
+		}
 		sub := e.sub()
 		bn := freshName(id.Name)
 		sub.bound[id.Name] = &Val{T: types.Typ[types.Int], K: KInt, S: Tm{bn, m.idx()}}
@@ -897,6 +953,12 @@ func (e *CEnv) call(n *ast.CallExpr) *Val {
 			e.errf("forallref(x, P) expects 2 arguments")
 		}
 		id := n.Args[0].(*ast.Ident)
+		if e.sides == nil && e.pol < 0 {
+			sk := st.declare("sk."+id.Name, SInt)
+			sub := e.sub()
+			sub.bound[id.Name] = &Val{T: types.Typ[types.UnsafePointer], K: KPtr, S: sk}
+			return boolVal(sub.eval(n.Args[1]).S)
+		}
 		sub := e.sub()
 		bn := freshName(id.Name)
 		sub.bound[id.Name] = &Val{T: types.Typ[types.UnsafePointer], K: KPtr, S: Tm{bn, SInt}}
@@ -1053,6 +1115,21 @@ func (e *CEnv) call(n *ast.CallExpr) *Val {
 		a := e.args(n, 1, "conversion")[0]
 		_ = t
 		return a
+	}
+	// call of a func-typed parameter the contract declares pure
+	if e.contract != nil && e.contract.PureParams[fname] {
+		if fv, ok := e.lookupMaybe(fname); ok && fv != nil && fv.K == KFunc {
+			if sig, ok := fv.T.Underlying().(*types.Signature); ok && e.fn != nil {
+				var args []*Val
+				for _, a := range n.Args {
+					args = append(args, e.eval(a))
+				}
+				r := e.x.pureParamApp(st, e.fn, fname, fv, args, sig)
+				if len(r) == 1 {
+					return r[0]
+				}
+			}
+		}
 	}
 	// spec function? (a package qualifier is accepted and ignored: spec names are global)
 	bare := fname
@@ -1241,7 +1318,9 @@ func (e *CEnv) ghostKeyTerm(gd *GhostDecl, i int, v *Val) Tm {
 		}
 		e.errf("ghost %s: key %d of kind %v is not a reference", gd.Name, i, v.K)
 	case "int":
-		return e.x.toIdx(e.st, e.typed(v, types.Typ[types.Int]))
+		t := e.x.toIdx(e.st, e.typed(v, types.Typ[types.Int]))
+		e.trigger(t)
+		return t
 	case "bool":
 		return v.S
 	}
